@@ -28,6 +28,7 @@ class Frame:
         self.ret = False      # returned-flag (bool or SV)
         self.retval = None
         self.loops = []       # stack of [brk, cont]
+        self.args_arrays = [a for a in env.values() if isinstance(a, np.ndarray) and a.size]     # the caller's arrays
 
 
 _fork_cache = {}
@@ -165,6 +166,13 @@ class Interp:
     def st_Return(self, s, g):
         f = self.frames[-1]
         v = self.ev(s.value) if s.value is not None else None
+        if g is not True and g is not False and self._returns_view_of_argument(v, f):
+            # returning (a view of) a caller's array under a condition on the data: merging would build a fresh array and
+            # lose the aliasing the caller can observe, so the path explorer decides the condition instead
+            self.forked_sites.add((f.fn.name, s.lineno))
+            if not bool(g):
+                return
+            g = True
         if f.ret is False and g is True:
             f.retval = v
         elif f.retval is None and f.ret is False:
@@ -172,6 +180,13 @@ class Interp:
         else:
             f.retval = merge(g, v, f.retval)
         f.ret = b_or(f.ret, g)
+
+    def _returns_view_of_argument(self, v, f):
+        vals = v if isinstance(v, tuple) else (v,)
+        for x in vals:
+            if isinstance(x, np.ndarray) and x.size and any(np.shares_memory(x, a) for a in f.args_arrays):
+                return True
+        return False
 
     def st_Break(self, s, g):
         l = self.frames[-1].loops[-1]
